@@ -753,6 +753,93 @@ pub fn g_long(w: &mut W, rng: &mut Rng, actions: u64) {
 }
 
 // ---------------------------------------------------------------------------------------
+// G-result: the inputs of the result order at a turn start - a rabbit of each colour on its goal rank or not, each
+// colour with or without rabbits, side to move - crossed with the amount of OTHER material: bare, random, and the
+// full complement (every non-rabbit piece of both colours and all remaining rabbits on the board).
+
+pub fn g_result(w: &mut W, rng: &mut Rng, variants: u64) {
+    for _ in 0..variants {
+        for combo in 0..16u64 {
+            for gold_to_move in [true, false] {
+                for fill in 0..3u64 {
+                    let (g_goal, s_goal, g_has, s_has) = (combo & 1 != 0, combo & 2 != 0, combo & 4 != 0, combo & 8 != 0);
+                    if (g_goal && !g_has) || (s_goal && !s_has) {
+                        continue;
+                    }
+                    let mut cells: [Cell; 64] = [None; 64];
+                    let free = |cells: &[Cell; 64], rows: std::ops::Range<usize>, rng: &mut Rng| -> usize {
+                        loop {
+                            let sq = (rows.start + rng.below((rows.end - rows.start) as u64) as usize) * 8 + rng.below(8) as usize;
+                            if cells[sq].is_none() && !TRAPS.contains(&sq) {
+                                return sq;
+                            }
+                        }
+                    };
+                    // rabbits: gold's goal rank is row 0 (rank 8), silver's is row 7 (rank 1)
+                    let n_rab = |has: bool, fill: u64, rng: &mut Rng| -> u64 {
+                        if !has {
+                            0
+                        } else if fill == 2 {
+                            8
+                        } else if fill == 1 {
+                            1 + rng.below(8)
+                        } else {
+                            1 + rng.below(3)
+                        }
+                    };
+                    let ng = n_rab(g_has, fill, rng);
+                    let ns = n_rab(s_has, fill, rng);
+                    for i in 0..ng {
+                        let sq = if i == 0 && g_goal { free(&cells, 0..1, rng) } else { free(&cells, 1..8, rng) };
+                        cells[sq] = Some((true, Piece::Rabbit));
+                    }
+                    for i in 0..ns {
+                        let sq = if i == 0 && s_goal { free(&cells, 7..8, rng) } else { free(&cells, 0..7, rng) };
+                        cells[sq] = Some((false, Piece::Rabbit));
+                    }
+                    // other material
+                    let others: [(Piece, u64); 5] = [(Piece::Cat, 2), (Piece::Dog, 2), (Piece::Horse, 2), (Piece::Camel, 1), (Piece::Elephant, 1)];
+                    for gold in [true, false] {
+                        for (k, maxn) in others.iter() {
+                            let n = match fill {
+                                0 => 0,
+                                1 => if rng.chance(1, 2) { *maxn } else { rng.below(*maxn + 1) },
+                                _ => *maxn,
+                            };
+                            for _ in 0..n {
+                                let sq = free(&cells, 0..8, rng);
+                                cells[sq] = Some((gold, *k));
+                            }
+                        }
+                    }
+                    if fill == 0 && rng.chance(1, 2) {
+                        // at least something that can move
+                        let sq = free(&cells, 2..6, rng);
+                        cells[sq] = Some((gold_to_move, Piece::Dog));
+                    }
+                    let text = diagram(&cells, 2 + rng.below(60), gold_to_move);
+                    w.begin("result");
+                    if let Some(gs) = w.init_pos(&text) {
+                        w.watch(&gs, 0);
+                        let pieces = cells.iter().filter(|c| c.is_some()).count();
+                        w.stat(&format!("result.combo{:02}.fill{}", combo, fill), 1);
+                        w.stat(&format!("result.pieces{:02}", pieces), 1);
+                        let acts = catch_unwind(AssertUnwindSafe(|| gs.valid_actions())).unwrap_or_default();
+                        if !acts.is_empty() {
+                            let a = acts[rng.below(acts.len() as u64) as usize];
+                            if let Some(n) = w.act(&gs, &a) {
+                                w.watch(&n, 0);
+                            }
+                        }
+                    }
+                    w.end();
+                }
+            }
+        }
+    }
+}
+
+// ---------------------------------------------------------------------------------------
 // G-seek: repetition seeker.  Tiny interacting material; at every turn start the whole turn tree (through the
 // rule-only lists) is searched for turns that re-create a position already seen at a turn start of the case -
 // restoring what the opponent just did by a push or pull, or shuttling - and such a turn is played with high
